@@ -216,6 +216,7 @@ class Engine(ExprMixin, BuiltinMixin):
 
     def _fresh_ctx(self, c: Contract):
         self.ctx = Ctx(c.float_mode, self.reg.field_types)
+        self.ctx.src = self.src
         self._axiom_cache = {}
         self._axiom_ids = set()
         self._fa_memo = {}
@@ -259,8 +260,8 @@ class Engine(ExprMixin, BuiltinMixin):
             st.assume(z3.Implies(z3.Not(v.none), f) if v.none is not None else f)
         if v.t[0] == "enum":
             st.assume(z3.And(v.z >= 0, v.z < len(ENUMS[v.t[1]])))
+        st.type_tag(v)
         if v.t[0] in ("list", "nd"):
-            st.type_tag(v)
             st.assume(st.seq_len(v) >= 0)
 
     def _run_path(self, c: Contract, fdef, mi, ci, case, label):
